@@ -1302,7 +1302,8 @@ struct TemplateCore {
             const SizeT   loop_size      = loop_set->Size();
             SizeT         loop_index     = 0;
 
-            if (loops_items_->Size() <= tag.Level) {
+            while (loops_items_->Size() <= tag.Level) {
+                // The level counts every enclosing tag (<if> too), so it can be ahead by more than one.
                 *loops_items_ += LoopItem{};
             }
 
